@@ -24,6 +24,13 @@ static std::vector<Lim> limits() {
         {"param_section_bytes", 130559, {130558, 130559, 130560, 131200}},
     };
 }
+// every quantity also at the powers of two (and their neighbours) below its limit: growth steps of containers, buffer sizes, bit widths of counters
+static std::vector<Lim> withLadder(std::vector<Lim> L) {
+    for (auto& l : L) { if (l.dim == "int_max" || l.dim == "int_min" || l.dim == "record_offset" || l.dim == "param_section_bytes" || l.dim == "param_blocks") continue;
+        for (long v : {15L, 16L, 17L, 31L, 32L, 33L, 63L, 64L, 65L}) if (v < l.L - 1 && std::find(l.levels.begin(), l.levels.end(), v) == l.levels.end()) l.levels.insert(l.levels.begin(), v);
+        if (l.dim == "frames") for (long v : {127L, 128L, 255L, 256L, 257L, 1000L}) l.levels.insert(l.levels.begin(), v); }
+    return L;
+}
 static std::string levelClass(const Lim& l, long v) { long a = std::labs(v), b = std::labs(l.L); return a + 1 == b ? "L-1" : a < b ? "inside" : a == b ? "L" : (a == b + 1 ? "L+1" : "beyond"); }
 static bool within(const Lim& l, long v) { return std::labs(v) <= std::labs(l.L); }
 
@@ -106,10 +113,10 @@ struct Case { std::vector<std::pair<int, long>> parts; };   // (limit index, val
 static std::string caseText(const Case& c, const std::vector<Lim>& L) { std::string s; for (auto& p : c.parts) { if (!s.empty()) s += ";"; s += L[(size_t)p.first].dim + "=" + std::to_string(p.second); } return s; }
 
 static int runC17(const std::string& tier, const std::string& scratch, const std::string& out, const std::string& one, int workers) {
-    std::vector<Lim> L = limits(); std::vector<Case> cases; bool thorough = tier == "thorough";
+    std::vector<Lim> L = withLadder(limits()); std::vector<Lim> Lpairs = limits(); std::vector<Case> cases; bool thorough = tier == "thorough";
     for (size_t i = 0; i < L.size(); ++i) for (long v : L[i].levels) cases.push_back({{{(int)i, v}}});
     size_t singles = cases.size();
-    if (thorough) for (size_t i = 0; i < L.size(); ++i) for (size_t j = i + 1; j < L.size(); ++j) for (long v : L[i].levels) for (long w : L[j].levels) {
+    if (thorough) for (size_t i = 0; i < L.size(); ++i) for (size_t j = i + 1; j < L.size(); ++j) for (long v : Lpairs[i].levels) for (long w : Lpairs[j].levels) {
         auto heavy = [&](size_t k, long x) { return (L[k].dim == "frames" || L[k].dim == "last_frame") ? (x > 1000 ? 2 : 0) : ((L[k].dim == "points" || L[k].dim == "channels") ? 1 : 0); };
         if (heavy(i, v) + heavy(j, w) >= 3) continue;                                              // frames x points/channels at the limits: > 10^7 points, not built
         if ((L[i].dim == "frames" || L[i].dim == "last_frame") && (L[j].dim == "frames" || L[j].dim == "last_frame")) continue;   // the same knob
